@@ -60,6 +60,7 @@ def translate(notes):
             return False, {}
         outs[feat] = js
     gen = os.path.join(LEAN, "FcGen", "Types.lean")
+    os.makedirs(os.path.dirname(gen), exist_ok=True)
     tmp = gen + ".new"
     rep = os.path.join(WORK, "types-report.json")
     rc, o, e = sh([sys.executable, os.path.join(ROOT, "tools", "gen_autotraits.py"), outs["std"], outs["alloc"], tmp, rep])
